@@ -426,7 +426,8 @@ class UTPM(Ring, RawAlgorithmsMixIn):
             return UTPM.exp(UTPM.log(self)*r)
         else:
             x_data = self.data
-            y_data = numpy.zeros_like(x_data)
+            # a complex exponent needs a complex result (zeros_like(x_data) would drop the imaginary part)
+            y_data = numpy.zeros(x_data.shape, dtype=numpy.result_type(x_data.dtype, r))
             self._pow_real(x_data, r, y_data)
             return self.__class__(y_data)
 
